@@ -56,7 +56,26 @@ TraceEER ==
              <<"DRIFT.eer_model", ~ok \/ ~tf \/ e.t[2] = 0 \/
                   (REq(e.e, EERCoded(o)[2]) /\ REq(e.t, EERCoded(o)[1]))>>}))
 
-Next == TraceNew \/ TraceEER
+(* very large tie-free data: only class sizes and the error counts the same object  *)
+(* reports at the returned threshold travel (the object itself is too big to rebuild) *)
+TraceEERCounts ==
+  /\ IsEvent("eer_counts") /\ UNCHANGED <<store, base>>
+  /\ LET e == Log[l]
+         np == e.npos + e.ep
+         nn == e.nneg + e.en
+         ok == e.exc = "" /\ e.e[2] > 0
+     IN Report(e, Failing({
+          <<"C06.raised", e.exc = "">>,
+          (* e = en/ed with a small numerator: |fp/nn - e| <= 1/nn  <=>  |fp*ed - en*nn| <= ed,     *)
+          (* written so that no product exceeds 32 bits                                            *)
+          <<"C06.range", ~ok \/ (e.e[1] >= 0 /\ e.e[1] <= e.e[2])>>,
+          <<"C06.fpr_within_one_sample", ~ok \/ e.e[1] > 2000 \/ e.fp > 2000 \/
+               (e.fp * e.e[2] - e.e[1] * nn <= e.e[2] /\ e.e[1] * nn - e.fp * e.e[2] <= e.e[2])>>,
+          <<"C06.fnr_within_one_sample", ~ok \/ e.e[1] > 2000 \/ e.fn > 2000 \/
+               (e.fn * e.e[2] - e.e[1] * np <= e.e[2] /\ e.e[1] * np - e.fn * e.e[2] <= e.e[2])>>,
+          <<"C06.zero_eer_means_no_errors", ~ok \/ ~e.e_is_zero \/ (e.fp = 0 /\ e.fn = 0)>>}))
+
+Next == TraceNew \/ TraceEER \/ TraceEERCounts
 Spec == Init /\ [][Next]_vars
 AllConsumed == TLCGet("stats").diameter - 1 = Len(Log)
 =============================================================================
